@@ -91,3 +91,44 @@ s("C02", "hdm-prevdist-unguarded", HDMF, "        if self.batches_since_reset >=
 b(["C02"], "ddm-reset-reorder", CO + "ddm.py", "        self._error_rate = 0\n        self._error_std = 0\n        self._error_rate_min = float(\"inf\")", "        self._error_std = 0\n        self._error_rate = 0\n        self._error_rate_min = float(\"inf\")", nth=1)
 b(["C02", "C04"], "cusum-stream-last-temp", CD + "cusum.py", "        self._stream.append(X)\n", "        self._stream.append(X)\n        latest = self._stream[-1]\n")
 b(["C02", "C15"], "kdq-no-deepcopy", DD + "kdq_tree.py", "        BatchDetector.update(self, X, None, None)\n        ary = copy.deepcopy(X)", "        BatchDetector.update(self, X, None, None)\n        ary = X")
+
+# ---------------------------------------------------------------- C04
+s("C04", "cusum-sh-plus-delta", CD + "cusum.py", "                / self.sd_hat\n                - self.delta,\n            )", "                / self.sd_hat\n                + self.delta,\n            )", "FRM")
+s("C04", "cusum-sl-sign", CD + "cusum.py", "                - self.delta\n                - (self._stream[-1] - self.target)", "                - self.delta\n                + (self._stream[-1] - self.target)", "FRM")
+s("C04", "ph-mean-divisor-total", CD + "page_hinkley.py", "(X - self._mean) / self.samples_since_reset", "(X - self._mean) / self.total_samples", "FRM")
+s("C04", "ph-min-test-flipped", CD + "page_hinkley.py", "        if self._sum < self._min:\n            self._min = self._sum", "        if self._sum > self._min:\n            self._min = self._sum", "FRM")
+s("C04", "ph-sum-before-mean", CD + "page_hinkley.py", "        self._mean = self._mean + (X - self._mean) / self.samples_since_reset\n        self._sum = self._sum + X - self._mean - self.delta", "        self._sum = self._sum + X - self._mean - self.delta\n        self._mean = self._mean + (X - self._mean) / self.samples_since_reset", "FRM")
+s2("C04", "ph-directions-swapped", CD + "page_hinkley.py", [("            ph_difference = self._sum - self._min", "            ph_difference = self._max - self._sum"), ("            ph_difference = self._max - self._sum\n\n        drift_check", "            ph_difference = self._sum - self._min\n\n        drift_check")], "TAB-direction", nth=0)
+s("C04", "cusum-positive-tests-lower", CD + "cusum.py", "                if self._upper_bound[self.samples_since_reset] > self.threshold:", "                if self._lower_bound[self.samples_since_reset] > self.threshold:", "TAB-direction")
+s2("C04", "revert-fix3", CD + "cusum.py", [("                + (self._stream[-1] - self.target)", "                + (self._stream[self.samples_since_reset - 1] - self.target)")], ["FRM", "TNT-obs"])
+s("C04", "cusum-estimate-late", CD + "cusum.py", "(self.target is None) & (self.samples_since_reset == self.burn_in)", "(self.target is None) & (self.samples_since_reset >= self.burn_in)", "GRD")
+s("C04", "cusum-alarm-ge", CD + "cusum.py", "                if self._lower_bound[self.samples_since_reset] > self.threshold:\n                    self.drift_state", "                if self._lower_bound[self.samples_since_reset] >= self.threshold:\n                    self.drift_state", "TAB-direction")
+s("C04", "cusum-prev-index", CD + "cusum.py", "                self._upper_bound[self.samples_since_reset - 1]\n", "                self._upper_bound[self.samples_since_reset - 2]\n", "FRM")
+b(["C04", "C17"], "ph-theta-before-sum", CD + "page_hinkley.py", "        self._sum = self._sum + X - self._mean - self.delta\n        theta = self.threshold * self._mean", "        theta = self.threshold * self._mean\n        self._sum = self._sum + X - self._mean - self.delta")
+s("C04", "ph-theta-old-mean", CD + "page_hinkley.py", "        self._mean = self._mean + (X - self._mean) / self.samples_since_reset\n        self._sum = self._sum + X - self._mean - self.delta\n        theta = self.threshold * self._mean", "        theta = self.threshold * self._mean\n        self._mean = self._mean + (X - self._mean) / self.samples_since_reset\n        self._sum = self._sum + X - self._mean - self.delta", "TAB-direction")
+s("C04", "cusum-double-append", CD + "cusum.py", "            self._upper_bound.append(s_h)\n            self._lower_bound.append(s_l)\n\n        # derive", "            self._upper_bound.append(s_h)\n            self._lower_bound.append(s_l)\n            self._upper_bound.append(s_h)\n\n        # derive", "MC-append")
+b(["C04"], "cusum-reassociate", CD + "cusum.py", "                + (self._stream[-1] - self.target)\n                / self.sd_hat\n                - self.delta,", "                - self.delta\n                + (self._stream[-1] - self.target)\n                / self.sd_hat,")
+b(["C04", "C17"], "ph-mean-rewrite", CD + "page_hinkley.py", "self._mean = self._mean + (X - self._mean) / self.samples_since_reset", "self._mean = (self._mean * (self.samples_since_reset - 1) + X) / self.samples_since_reset")
+b(["C04"], "ph-elif-to-if-order", CD + "page_hinkley.py", '        if self.direction == "positive":\n            ph_difference = self._sum - self._min\n        elif self.direction == "negative":\n            ph_difference = self._max - self._sum', '        if self.direction == "negative":\n            ph_difference = self._max - self._sum\n        elif self.direction == "positive":\n            ph_difference = self._sum - self._min')
+
+# ---------------------------------------------------------------- C05
+s("C05", "ddm-indicator-eq", CO + "ddm.py", "classifier_result = int(y_pred != y_true)", "classifier_result = int(y_pred == y_true)", "POLARITY")
+s("C05", "eddm-block-under-correct", CO + "eddm.py", "        if not classifier_result:\n            self._n_errors += 1", "        if classifier_result:\n            self._n_errors += 1", "POLARITY")
+s("C05", "eddm-drift-lt", CO + "eddm.py", "if self._test_statistic <= self.drift_thresh:", "if self._test_statistic < self.drift_thresh:", "GRD-chain")
+s2("C05", "ddm-warning-first", CO + "ddm.py", [(">= self._error_rate_min + self.drift_scale * self._error_std\n        ):\n            self.drift_state = \"drift\"", ">= self._error_rate_min + self.warning_scale * self._error_std\n        ):\n            self.drift_state = \"warning\""), (">= self._error_rate_min + self.warning_scale * self._error_std\n        ):\n            self.drift_state = \"warning\"\n        else", ">= self._error_rate_min + self.drift_scale * self._error_std\n        ):\n            self.drift_state = \"drift\"\n        else")], "GRD-chain", nth=0)
+s("C05", "stepd-drop-decreased", CO + "stepd.py", "if accuracy_decreased and self._test_p < self.alpha_drift:", "if self._test_p < self.alpha_drift:", "GRD-chain")
+s("C05", "stepd-r-gets-newest", CO + "stepd.py", "            self._r += self._window[0]", "            self._r += self._window[-1]", "PAIR")
+s("C05", "stepd-continuity-one", CO + "stepd.py", "                - 0.5\n                * (", "                - 1.0\n                * (", "FRM")
+s("C05", "eddm-dist-swapped", CO + "eddm.py", "dist = self._index_error_curr - self._index_error_last", "dist = self._index_error_last - self._index_error_curr", "FRM")
+s("C05", "stepd-else-keeps-recs", CO + "stepd.py", "                self.drift_state = None\n                self._initialize_retraining_recs()", "                self.drift_state = None", "MC-recs")
+s("C05", "ddm-min-lt", CO + "ddm.py", "            <= self._error_rate_min + self._error_std_min\n", "            < self._error_rate_min + self._error_std_min\n", "FRM")
+s("C05", "ddm-std-old-rate-twice", CO + "ddm.py", "self._error_std = self._error_std + (classifier_result - self._error_rate) * (\n            classifier_result - error_rate_prev\n        )", "self._error_std = self._error_std + (classifier_result - error_rate_prev) * (\n            classifier_result - error_rate_prev\n        )", "FRM")
+s("C05", "eddm-max-2std-to-std", CO + "eddm.py", "curr_numerator = self._dist_mean + 2 * self._dist_std", "curr_numerator = self._dist_mean + self._dist_std", "FRM")
+s("C05", "stepd-p-two-sided", CO + "stepd.py", "self._test_p = 1 - scipy.stats.norm.cdf(", "self._test_p = 2 - 2 * scipy.stats.norm.cdf(", "FRM")
+s("C05", "stepd-past-uses-total", CO + "stepd.py", "            out = self._r / (self.samples_since_reset - len(self._window))", "            out = self._r / (self.total_samples - len(self._window))", "FRM")
+s("C05", "stepd-window-ge", CO + "stepd.py", "if len(self._window) > self.window_size:", "if len(self._window) >= self.window_size:", "PAIR")
+s("C05", "eddm-index-total", CO + "eddm.py", "            self._index_error_curr = (\n                self.samples_since_reset - 1\n            )", "            self._index_error_curr = (\n                self.total_samples - 1\n            )", "FRM")
+b(["C05", "C16", "C17"], "ddm-rate-rewrite", CO + "ddm.py", "            self._error_rate\n            + (classifier_result - self._error_rate) / self.samples_since_reset\n        )", "            (self._error_rate * (self.samples_since_reset - 1) + classifier_result) / self.samples_since_reset\n        )")
+b(["C05", "C17"], "eddm-flip-le", CO + "eddm.py", "if self._test_statistic <= self.drift_thresh:", "if self.drift_thresh >= self._test_statistic:")
+b(["C05", "C16"], "stepd-indicator-swapped-operands", CO + "stepd.py", "classifier_result = int(y_pred == y_true)", "classifier_result = int(y_true == y_pred)")
+b(["C05", "C17"], "stepd-nested-decreased", CO + "stepd.py", "            if accuracy_decreased and self._test_p < self.alpha_drift:\n                self.drift_state = \"drift\"\n            elif accuracy_decreased and self._test_p < self.alpha_warning:\n                self.drift_state = \"warning\"\n            else:\n                self.drift_state = None\n                self._initialize_retraining_recs()", "            if accuracy_decreased and self._test_p < self.alpha_drift:\n                self.drift_state = \"drift\"\n            elif self._test_p < self.alpha_warning and accuracy_decreased:\n                self.drift_state = \"warning\"\n            else:\n                self.drift_state = None\n                self._initialize_retraining_recs()")
